@@ -294,10 +294,11 @@ Qed.
    accepts, NewFromString yields the digits with the fraction length as negative exponent *)
 Lemma number_form_parts : forall chk neg ip fp, ip <> [] -> digit_text ip -> digit_text fp ->
   let s := sign_text neg ++ ip ++ frac_text fp in
-  trim_space s = s /\ decimal_regexp s = true /  new_from_string_with chk s
-  = if chk (- Z.of_nat (length fp))%Z
-    then Some (Dec (signed neg (undigits (ip ++ fp))) (- Z.of_nat (length fp)))
-    else None.
+  trim_space s = s /\ decimal_regexp s = true /\
+  (new_from_string_with chk s
+   = if chk (- Z.of_nat (length fp))%Z
+     then Some (Dec (signed neg (undigits (ip ++ fp))) (- Z.of_nat (length fp)))
+     else None).
 Proof.
   intros chk neg ip fp Hne Hip Hfp. cbv zeta.
   destruct (sign_text_props neg) as (S1 & S2 & S3).
@@ -364,7 +365,8 @@ Qed.
 
 (* decimal.NewFromString alone (what parse_json uses) on a rendering *)
 Lemma new_from_string_render : forall chk d, exists d',
-  dec_eq d' d /\ (Z.min (dexp d) 0 <= dexp d' <= 0)%Z /  new_from_string_with chk (render d) = if chk (dexp d') then Some d' else None.
+  dec_eq d' d /\ (Z.min (dexp d) 0 <= dexp d' <= 0)%Z /\
+  new_from_string_with chk (render d) = (if chk (dexp d') then Some d' else None).
 Proof.
   intros chk d. destruct (render_form d) as (neg & ip & fp & Hr & Hne & Hip & Hfp & Heq & Hb).
   exists (Dec (signed neg (undigits (ip ++ fp))) (- Z.of_nat (length fp))). cbn [dexp].
